@@ -28,8 +28,9 @@ import (
 	"github.com/oasisprotocol/curve25519-voi/curve/scalar"
 )
 
-// c16EqWatchdog bounds one triple multiplication (normally ~100 microseconds).
-const c16EqWatchdog = 60 * time.Second
+// c16EqBudget bounds one triple multiplication (normally ~100 microseconds) in
+// CPU time consumed by the process, so machine load cannot trip it.
+const c16EqBudget = 30 * time.Second
 
 type c16EqCase struct {
 	A     h.PointSpec // A = [A.A]B + T[A.J]
@@ -188,24 +189,8 @@ func c16CheckEq(c c16EqCase) h.Result {
 	// call runs under a watchdog: the embedded lattice reduction is the only
 	// unbounded loop, it depends on `a` alone, so if this call returns the
 	// later ones (same a) do too.
-	done := make(chan struct{})
-	var pnc interface{} // a panic in the goroutine is re-raised on the checking goroutine (reported by the wrapper)
-	go func() {
-		defer func() {
-			pnc = recover()
-			close(done)
-		}()
-		res.TripleScalarMulBasepointVartime(a, A, b, C)
-	}()
-	wd := time.NewTimer(c16EqWatchdog)
-	select {
-	case <-done:
-		wd.Stop()
-	case <-wd.C:
-		return r.Fail("EdwardsPoint.TripleScalarMulBasepointVartime:does-not-terminate", "a=%x A=%x b=%x C=%x (no result after %v)", []byte(c.Sa), encA, []byte(c.Sb), encC, c16EqWatchdog).Result()
-	}
-	if pnc != nil {
-		panic(pnc)
+	if !h.Returns(c16EqBudget, func() { res.TripleScalarMulBasepointVartime(a, A, b, C) }) {
+		return r.Fail("EdwardsPoint.TripleScalarMulBasepointVartime:does-not-terminate", "a=%x A=%x b=%x C=%x (no result after %v of CPU time)", []byte(c.Sa), encA, []byte(c.Sb), encC, c16EqBudget).Result()
 	}
 	judge("EdwardsPoint.TripleScalarMulBasepointVartime", &res)
 	unchanged("EdwardsPoint.TripleScalarMulBasepointVartime")
